@@ -109,11 +109,11 @@ func TestCheck(t *testing.T) {
 		r.Finish()
 		return
 	}
-	c := &strace.Campaign{R: r, Stream: "c07", Judge: judge(r), Roots: r.N(60, 900), Sweeps: r.N(60, 600), SweepK: r.N(400, 4000)}
+	c := &strace.Campaign{R: r, Stream: "c07", Judge: judge(r), Roots: r.N(120, 900), Sweeps: r.N(110, 600), SweepK: r.N(400, 4000)}
 	c.Go()
 	// games: fresh / warmed / heavily colliding 32000-byte table (1000 buckets)
 	corpus := gen.Corpus()
-	games := r.N(96, 1600)
+	games := r.N(320, 3200)
 	ev.Parallel(games, func(wk, i int) {
 		rng := r.RNG("c07-game", i)
 		p := corpus[rng.IntN(len(corpus))]
@@ -144,7 +144,7 @@ func TestCheck(t *testing.T) {
 		}
 	})
 	// UCI path with Ponder=true: info / bestmove ... ponder ... lines of the real driver
-	nu := r.N(300, 6000)
+	nu := r.N(1200, 12000)
 	ev.Parallel(nu, func(wk, i int) {
 		rng := r.RNG("c07-uci", i)
 		root, _ := strace.RandomRoot(rng, strace.RootKinds[i%len(strace.RootKinds)])
